@@ -30,3 +30,13 @@ Theorem C03_accept_never_blocks : forall (T : Type) (measure : T -> N) (q : rq T
    rq_accept measure q x = (mkRq (rq_items q ++ [x]) (rq_win q - measure x) (rq_closed q) (rq_cancelled q), AccOk)).
 Proof. exact accept_cases. Qed.
 Print Assumptions C03_accept_never_blocks.
+
+(* many streams on one carrier of bounded capacity (MultiPipe.v): the frame at the head of the
+   carrier can always be taken by the receive loop, whatever the applications of the streams do -
+   no stream's unread data holds up another stream's frames *)
+From GT Require Import Frames Pipe MultiPipe MultiPipeProofs.
+Theorem C03_no_head_of_line_blocking : forall (A : Type) cmax W K, 0 < K ->
+  forall n ls (m : mst A), mrun cmax K (m_init A W n) ls = Some m ->
+  m_wire m <> [] -> exists m', mstep cmax K m MDeliver = Some m'.
+Proof. exact multi_head_always_deliverable. Qed.
+Print Assumptions C03_no_head_of_line_blocking.
